@@ -58,10 +58,13 @@ ASSUMPTIONS = [
     "an optional-value option given without a value reports its default converted to the declared type (as the code does)",
 ]
 BATCH = 2000
+# a safety cut-off, not a work limit: the quick stream takes about a minute on a quiet machine and must not be cut on a
+# slower one (a cut stream makes the evidence depend on the machine's load)
+BUDGET_S = {"quick": 200, "thorough": 900}
 
 
 def generate(tier, rng):
-    n = 25000 if tier == "quick" else 300000
+    n = 20000 if tier == "quick" else 300000
     for k in range(n):
         spec = pc.gen_format(rng)
         try:
